@@ -6,14 +6,6 @@ From V Require Import Base.Strings Base.Result Model.Registry Model.Settings Mod
 Import ListNotations.
 Open Scope string_scope. Open Scope list_scope.
 
-Definition gen_frame (phi : string -> string) (r : registry) (s1 s2 : settings) : Prop :=
-  resolve_frame phi r s1 s2 /\
-  s_docs s2 = s_docs s1 /\ s_codec s2 = s_codec s1 /\ s_dreg s2 = s_dreg s1 /\
-  s_compact_as s2 = s_compact_as s1 /\
-  (forall w, In w (registry_idents r) -> phi w = w) /\
-  (forall w, In w (flat_map derives_inputs (derives_list (s_dreg s1))) -> phi w = w) /\
-  (forall w, In w (match s_compact_as s1 with Some k => snd k | None => [] end) -> phi w = w).
-
 (** * A. derives of a flattened registry come from the settings *)
 Definition fg_from (dr : derives_registry) (x : kt) : Prop :=
   exists d, In d (derives_list dr) /\ In x (d_derives d ++ d_attrs d).
